@@ -56,3 +56,48 @@ Proof. vm_compute. split; reflexivity. Qed.
 
 Lemma f16_original : fed_exec ww wg pick1 false false q16 = None.
 Proof. vm_compute. reflexivity. Qed.
+
+(** A federation with a union, keyed objects and a finite table of resolver results, for the non-vacuity of
+    the main theorem: Query.u : [U] on s1; A.x on s1, A.y and B.z on s2 -- a hop below each union member. *)
+From Thunder Require Import Federation.Premises.
+
+Definition wg2 : gschema :=
+  mk_gschema ["A"; "B"; "Query"] [("U", ["A"; "B"])]
+    [("A", "id", RScalar, ["s1"; "s2"]); ("A", "_federation", RObj "A", ["s1"; "s2"]);
+     ("A", "x", RScalar, ["s1"]); ("A", "y", RScalar, ["s2"]);
+     ("B", "id", RScalar, ["s1"; "s2"]); ("B", "_federation", RObj "B", ["s1"; "s2"]); ("B", "z", RScalar, ["s2"]);
+     ("Query", "u", RUnion "U", ["s1"]); ("Query", "_federation", RObj "Federation", ["s1"; "s2"])]
+    [("A", "s1", ["id"]); ("A", "s2", ["id"]); ("B", "s1", ["id"]); ("B", "s2", ["id"])] [] ["A"; "B"].
+
+Definition calls2 : list (string * Z * string * string * aval) :=
+  [("Query", 0%Z, "u", "", AList [AURef "A" 1%Z; AURef "B" 2%Z; ANull; AURef "A" 3%Z]);
+   ("A", 1%Z, "x", "", AScalar (JNum 11%Z)); ("A", 1%Z, "y", "", AScalar (JStr "one"));
+   ("A", 3%Z, "x", "", ANull); ("A", 3%Z, "y", "", AList [AScalar (JNum 1%Z); ANull]);
+   ("B", 2%Z, "z", "", AScalar (JBool true))].
+
+(** { u { ... on A { x y } ... on B { z } ... on A { again: x } } } *)
+Definition q2 : list node :=
+  [NField "u" "u" (JObj []) "" [] true
+     [NFrag "A" [] [fld "x" []; fld "y" []]; NFrag "B" [("include", true)] [fld "z" []];
+      NFrag "A" [] [NField "again" "x" (JObj []) "" [] false []]]].
+
+Definition ans2 : json :=
+  JObj [("u", JArr [JObj [("__key", JNum 1%Z); ("__typename", JStr "A"); ("again", JNum 11%Z); ("x", JNum 11%Z); ("y", JStr "one")];
+                    JObj [("__key", JNum 2%Z); ("__typename", JStr "B"); ("z", JBool true)];
+                    JNull;
+                    JObj [("__key", JNum 3%Z); ("__typename", JStr "A"); ("again", JNull); ("x", JNull);
+                          ("y", JArr [JNum 1%Z; JNull])]])].
+
+Lemma witness2 :
+  premises wg2 calls2 pick1 q2 = true /\
+  option_map norm (fed_exec (world_of calls2 []) wg2 pick1 false true q2) = Some ans2 /\
+  option_map norm (eval_ref (world_of calls2 []) wg2 true (2 * depth_list q2 + 4) "Query" 0%Z q2) = Some ans2 /\
+  match flatten (2 * depth_list q2 + 4) false wg2 (RObj "Query") (Some q2) with
+  | Some (Some flat) =>
+      match plan_root wg2 pick1 (2 * depth_list q2 + 4) flat with
+      | Some (Plan _ _ _ _ [Plan _ "s1" _ _ subs]) => List.length subs = 2   (* one hop to s2 per union member *)
+      | _ => False
+      end
+  | _ => False
+  end.
+Proof. vm_compute. repeat split; reflexivity. Qed.
